@@ -3,13 +3,14 @@ import re
 from vcore import Case, Harness
 
 ID = 'C14'
-GEN = ['Hex', 'TraceState']
-LEAN_TARGETS = ['OtelVerif.Props.C14']
+GEN = ['Hex', 'TraceState', 'TabTraceState', 'TabKv']
+LEAN_TARGETS = ['OtelVerif.Props.C14', 'OtelVerif.Props.TabTraceState', 'OtelVerif.Props.TabKv']
 THEOREMS = ['Otel.C14.' + t for t in (
     'isValidKey_iff', 'isValidValue_iff', 'set_spec', 'set_invalid_default', 'set_places_first', 'set_key_unique',
     'set_keeps_others', 'set_full_new_refused', 'set_full_existing_updates', 'delete_exact', 'delete_invalid_default',
     'get_set', 'get_set_other', 'get_delete', 'wf_set', 'wf_delete', 'fromHeader_spec', 'wf_fromHeader',
-    'overlong_header_empty', 'invalid_member_header_empty', 'fromHeader_toHeader')] + ['Otel.rxMatch_iff']
+    'overlong_header_empty', 'invalid_member_header_empty', 'fromHeader_toHeader')] + ['Otel.rxMatch_iff'] + ['Otel.Tab.' + t for t in (
+    'tab_tsKey1', 'tab_tsValue1', 'tab_tsKey2_cross', 'tab_tsValue2_cross', 'tab_trimDrops', 'tab_trimShort', 'tab_trim3Short', 'tab_kvTokSep', 'tab_kvTokShort')]
 HARNESSES = [Harness('f_c09', ['harness/f_c09.cc'])]
 H = 'f_c09'
 RULE = ('op sequences (from/set/del/get/hdr/vk/vv) over a growing family of states, small key pool so keys repeat, '
